@@ -317,6 +317,180 @@ def rt_real(seed, n):
     return out
 
 
+# ---------------------------------------------------------------- tier U: one ARBITRARY iteration of the real training loops over an abstract table / model
+
+def h_step_U(algo):
+    """QLearning / SARSA _training with both loops cut (episodes loop, timestep loop), an ABSTRACT Q-table (z3 array state x action -> real, any size, any
+    content), an uninterpreted model (Abs, Supp, Rw, Init), symbolic step size and discount, and the behaviour sampler replaced by its contract (returns
+    an action available in the row it was given).  Obligation at the back edge of the timestep loop, i.e. for EVERY timestep of EVERY run:
+    the step is a real transition from a non-absorbing state, table-after = published rule(table-before) at (s,a) and unchanged everywhere else, the loop
+    continues from the sampled next state (and, SARSA, with the action the update used).  By induction over timesteps the returned table is the rule folded
+    over the experience -- no bound on episodes, steps, states or actions."""
+    import z3, os
+    from symrun.absx import Atom, fresh_atom
+    from symrun.cut import cut, CutSpec
+    from symrun.driver import ROOT
+    I, B, Rl = z3.IntSort(), z3.BoolSort(), z3.RealSort()
+    QS = z3.ArraySort(I, I, Rl)
+    Abs, Supp, Rw, Init, Avail = (z3.Function('Abs', I, B), z3.Function('Supp', I, I, I, B), z3.Function('Rw', I, I, I, Rl), z3.Function('Init', I, B),
+                                  z3.Function('Avail', I, I, B))
+    MaxRow = z3.Function('MaxRow', QS, I, Rl)              # max over the available actions of a row of a given table (contract of builtin max on row.values())
+    alpha, gamma = S.real('alpha'), S.real('gamma')
+    the_rng = object()
+
+    class Table:
+        def __init__(self, arr): self.arr = arr
+        def __getitem__(self, st): return Row(self, st)
+        def __contains__(self, st): return True             # the abstract table is total (rows materialise on first access in the real defaultdict2)
+        def __setitem__(self, st, row): raise S.Unsupported('row assignment on the abstract table')
+
+    class Row:
+        def __init__(self, t, st): self.t, self.st = t, st
+        def __getitem__(self, a): return S.SymReal(z3.Select(self.t.arr, self.st.e, a.e))
+        def __setitem__(self, a, v): self.t.arr = z3.Store(self.t.arr, self.st.e, a.e, S.as_real(v).e)
+        def values(self): return RowValues(self.t.arr, self.st)
+
+    class RowValues:
+        def __init__(self, arr, st): self.arr, self.st = arr, st
+        def __iter__(self): raise S.Unsupported('iteration over an abstract row')
+
+    def symmax(x, *rest):
+        if isinstance(x, RowValues):
+            return S.SymReal(MaxRow(x.arr, x.st.e))
+        return max(x, *rest)
+
+    class Sampler:
+        def __init__(self, pred, base): self.pred, self.base = pred, base
+        def sample(self, *, rng=None, k=1):
+            S.check('U:%s:every-draw-uses-the-learner-generator' % algo, S.truth(rng is the_rng))
+            x = fresh_atom(self.base)
+            S.assume(S.SymBool(self.pred(x.e)))
+            return x
+
+    class MDP:
+        discount_rate = gamma
+        def is_absorbing(self, st): return S.SymBool(Abs(st.e))
+        def next_state_dist(self, st, a): return Sampler(lambda n: Supp(st.e, a.e, n), 'ns')
+        def reward(self, st, a, ns): return S.SymReal(Rw(st.e, a.e, ns.e))
+        def initial_state_dist(self): return Sampler(lambda n: Init(n), 's0')
+        def actions(self, st): raise S.Unsupported('actions() of the abstract model')
+    picks = []
+
+    def sampler_stub(action_values, rand_choose, softmax_temp, rng):
+        """contract of epsilon_softmax_sample (tier B): returns a key of its argument; draws only from rng"""
+        S.check('U:%s:behaviour-sampler-gets-a-row-of-the-CURRENT-table,the-configured-exploration-parameters-and-the-generator' % algo, S.truth(
+            isinstance(action_values, Row) and action_values.t is cur['table'] and rand_choose is learner.rand_choose and softmax_temp is learner.softmax_temp and rng is the_rng))
+        a = fresh_atom('act')
+        S.assume(S.SymBool(Avail(action_values.st.e, a.e)))
+        picks.append(dict(state=action_values.st, action=a, arr=action_values.t.arr))
+        return a
+    # expected SARSA: epsilon_softmax_dist replaced by its contract (a distribution over the keys of the row it was given, determined by that row and the
+    # exploration parameters); the expectation  sum([q[ns][na]*p for na, p in na_dist.items()])  is seen element-wise through an arbitrary action `focus`:
+    # the summand must be Q(ns, focus) * P(focus | row) and the total is the uninterpreted expectation ExpQ(table, ns)
+    ExpQ = z3.Function('ExpQ', QS, I, Rl)
+    Pr = z3.Function('BehaviourProb', QS, I, I, Rl)
+    dists = []
+
+    class ADist:
+        def __init__(self, row): self.arr, self.st = row.t.arr, row.st
+        def items(self):
+            f = fresh_atom('focus_action')
+            self.focus = f
+            return [(f, S.SymReal(Pr(self.arr, self.st.e, f.e)))]
+
+    def dist_stub(action_values, rand_choose, softmax_temp):
+        S.check('U:%s:behaviour-distribution-is-built-from-a-row-of-the-CURRENT-table-and-the-configured-parameters' % algo, S.truth(
+            isinstance(action_values, Row) and action_values.t is cur['table'] and rand_choose is learner.rand_choose and softmax_temp is learner.softmax_temp))
+        d = ADist(action_values)
+        dists.append(dict(state=action_values.st, arr=action_values.t.arr, dist=d))
+        return d
+
+    def symsum(x, *rest):
+        if dists and isinstance(x, list) and len(x) == 1 and isinstance(x[0], S.SymReal):
+            d = dists[-1]
+            f = d['dist'].focus
+            S.check('U:%s:the-expectation-weights-Q(next-state,action)-by-the-behaviour-probability-of-that-action' % algo,
+                    S.eq(x[0], S.SymReal(z3.Select(d['arr'], d['state'].e, f.e)) * S.SymReal(Pr(d['arr'], d['state'].e, f.e))))
+            return S.SymReal(ExpQ(d['arr'], d['state'].e))
+        return sum(x, *rest)
+    cur = {}
+    head = {}
+    phase = {'back': False}
+
+    class Listener:
+        def end_of_timestep(self, L): phase['back'] = True
+        def end_of_episode(self, L): pass
+        def results(self): return None
+    learner = getattr(td, algo)(episodes=S.integer('episodes', 0, None), step_size=alpha, rand_choose=S.real('eps'), softmax_temp=S.real('temp'), initial_q=0.0)
+
+    def inv0(L):
+        return S.truth(isinstance(L['q'], Table))
+
+    def havoc0(L):
+        cur['table'] = Table(z3.Const(S.cur().fresh('Q_episode'), QS))
+        S.cur().inputs[str(cur['table'].arr)] = cur['table'].arr
+        return dict(q=cur['table'], ep=None, s=None, a=None, ns=None, r=None, na=None)
+
+    def inv1(L):
+        carried = [S.truth(L['q'] is cur['table'])]
+        if algo == 'SARSA':       # loop-carried: the pending action is available at the current state
+            carried.append(S.SymBool(Avail(L['s'].e, L['a'].e)))
+        if not phase['back']:
+            return S.And(carried)
+        # ---- the step relation, evaluated at the back edge of the timestep loop
+        Q0, s0 = head['arr'], head['s']
+        a0 = head['a'] if algo == 'SARSA' else L['a']
+        ns, r, q = L['ns'], L['r'], L['q']
+        X, Y = fresh_atom('anyS'), fresh_atom('anyA')
+        q00 = z3.Select(Q0, s0.e, a0.e)
+        if algo == 'QLearning':
+            target = S.SymReal(Rw(s0.e, a0.e, ns.e)) + gamma * S.SymReal(MaxRow(Q0, ns.e))
+            cont = [S.SymBool(L['s'].e == ns.e)]
+            chosen = [S.truth(len(picks) == 1 and picks[0]['state'] is s0 and picks[0]['action'] is L['a']), S.SymBool(picks[0]['arr'] == Q0)]
+        elif algo == 'ExpectedSARSA':
+            target = S.SymReal(Rw(s0.e, a0.e, ns.e)) + gamma * S.SymReal(ExpQ(Q0, ns.e))
+            cont = [S.SymBool(L['s'].e == ns.e)]
+            chosen = [S.truth(len(picks) == 1 and picks[0]['state'] is s0 and picks[0]['action'] is L['a']), S.SymBool(picks[0]['arr'] == Q0),
+                      S.truth(len(dists) == 1 and dists[0]['state'] is ns), S.SymBool(dists[0]['arr'] == Q0)]
+        else:
+            na = L['na']
+            target = S.SymReal(Rw(s0.e, a0.e, ns.e)) + gamma * S.SymReal(z3.Select(Q0, ns.e, na.e))
+            cont = [S.SymBool(L['s'].e == ns.e), S.SymBool(L['a'].e == na.e)]
+            chosen = [S.truth(len(picks) == 1 and picks[0]['state'] is ns and picks[0]['action'] is na), S.SymBool(picks[0]['arr'] == Q0)]
+        new = S.SymReal(q00) + alpha * (target - S.SymReal(q00))
+        want = S.If(S.SymBool(z3.And(X.e == s0.e, Y.e == a0.e)), new, S.SymReal(z3.Select(Q0, X.e, Y.e)))
+        S.check('U:%s:experienced-step-is-a-real-transition-from-a-non-absorbing-state' % algo, S.And([
+            S.Not(S.SymBool(Abs(s0.e))), S.SymBool(Avail(s0.e, a0.e)), S.SymBool(Supp(s0.e, a0.e, ns.e)), S.eq(r, S.SymReal(Rw(s0.e, a0.e, ns.e)))]))
+        S.check('U:%s:the-behaviour-sampler-chose-the-action-on-the-table-before-the-update' % algo, S.And(chosen))
+        S.check('U:%s:table-after-is-the-published-rule-applied-to-the-table-before;no-other-entry-changes' % algo, S.And([
+            S.truth(q is cur['table']), S.eq(S.SymReal(z3.Select(q.arr, X.e, Y.e)), want)]))
+        S.check('U:%s:the-loop-continues-from-the-sampled-next-state' % algo, S.And(cont))
+        return S.And(carried)
+
+    def havoc1(L):
+        t = cur['table']
+        t.arr = z3.Const(S.cur().fresh('Q_before'), QS)                       # any table content at the head of an arbitrary timestep
+        S.cur().inputs[str(t.arr)] = t.arr
+        head['arr'] = t.arr
+        head['s'] = fresh_atom('state')
+        d = dict(q=t, s=head['s'], a=None, ns=None, r=None, na=None)
+        if algo == 'SARSA':
+            head['a'] = fresh_atom('pending_action')                            # its availability is part of the invariant (assumed by the cut, proved at init/step)
+            d['a'] = head['a']
+        del picks[:]
+        del dists[:]
+        return d
+    spec0 = CutSpec(inv=inv0, havoc=havoc0, element=lambda L, it: S.integer('ghost_ep', 0, None), iter_src='range(self.episodes)')
+    spec1 = CutSpec(inv=inv1, havoc=havoc1)
+    fcut, text, info = cut(getattr(td, algo)._training, {0: spec0, 1: spec1}, dump_dir=os.path.join(ROOT, 'evidence', 'extracted'))
+    t0 = Table(z3.Const('Q_initial', QS))
+    cur['table'] = t0
+    learner._initial_q_table = lambda m: t0
+    with patched((td, dict(max=symmax, epsilon_softmax_sample=sampler_stub, epsilon_softmax_dist=dist_stub, sum=symsum))):
+        res = fcut(learner, MDP(), the_rng, Listener())
+    S.check('U:%s:returns-the-table-it-updated' % algo, S.truth(isinstance(res, Table) and (res is cur['table'] or res is t0)))
+
+
 def tasks(tier, seed):
     T = []
     for sk in episodic(tier):
@@ -334,6 +508,8 @@ def tasks(tier, seed):
     for n in (1, 2, 3):
         for pname in PARAMS:
             T.append(Task('sample/n%d/%s' % (n, pname), h_sample, (n, pname), tier='B'))
+    for algo in ('QLearning', 'SARSA', 'ExpectedSARSA'):
+        T.append(Task('U/step/%s/abstract-table-and-model' % algo, h_step_U, (algo,), tier='U', note='both training loops cut; arbitrary table, model, step size, discount'))
     T.append(Task('rt/real-seeds', rt_real, (seed, 10 if tier == 'quick' else 80), tier='R', kind='rt'))
     return T
 
@@ -347,3 +523,26 @@ MANIFEST_ENTRY = dict(
     note='Bounded runs (episodes<=2, draw budget), skeletons, generic rational step size/discount/epsilon incl. 0 and 1 (tier B); exp uninterpreted; sampling law not decided.',
 )
 END_MANIFEST_ENTRY = True
+
+
+SENTINELS = globals().get('SENTINELS', []) + [
+    Sentinel('U:qlearning-bootstraps-from-the-current-state', 'msdm.algorithms.tdlearning', "q[s][a] += self.step_size*(r + mdp.discount_rate*max(q[ns].values()) - q[s][a])",
+             "q[s][a] += self.step_size*(r + mdp.discount_rate*max(q[s].values()) - q[s][a])", ['U/step/QLearning/abstract-table-and-model']),
+    Sentinel('U:qlearning-drops-the-discount', 'msdm.algorithms.tdlearning', "q[s][a] += self.step_size*(r + mdp.discount_rate*max(q[ns].values()) - q[s][a])",
+             "q[s][a] += self.step_size*(r + max(q[ns].values()) - q[s][a])", ['U/step/QLearning/abstract-table-and-model']),
+    Sentinel('U:sarsa-bootstraps-from-the-old-action', 'msdm.algorithms.tdlearning', "q[s][a] += self.step_size*(r + mdp.discount_rate*q[ns][na] - q[s][a])",
+             "q[s][a] += self.step_size*(r + mdp.discount_rate*q[ns][a] - q[s][a])", ['U/step/SARSA/abstract-table-and-model']),
+    Sentinel('U:sarsa-executes-a-different-action-than-it-updated-with', 'msdm.algorithms.tdlearning', "                s, a = ns, na\n", "                s, a = ns, epsilon_softmax_sample(q[ns], self.rand_choose, self.softmax_temp, rng)\n",
+             ['U/step/SARSA/abstract-table-and-model']),
+    Sentinel('U:expected-sarsa-expects-over-the-current-state', 'msdm.algorithms.tdlearning', "na_dist = epsilon_softmax_dist(q[ns], self.rand_choose, self.softmax_temp)",
+             "na_dist = epsilon_softmax_dist(q[s], self.rand_choose, self.softmax_temp)", ['U/step/ExpectedSARSA/abstract-table-and-model']),
+    Sentinel('U:expected-sarsa-forgets-the-probabilities', 'msdm.algorithms.tdlearning', "sum([q[ns][na]*p for na, p in na_dist.items()])", "sum([q[ns][na] for na, p in na_dist.items()])",
+             ['U/step/ExpectedSARSA/abstract-table-and-model']),
+    Sentinel('U:expected-sarsa-step-size-applied-twice', 'msdm.algorithms.tdlearning', "                q[s][a] += self.step_size*td_error\n                # end of timestep\n                event_listener.end_of_timestep(locals())\n                s = ns\n            event_listener.end_of_episode(locals())\n        return q\n",
+             "                q[s][a] += self.step_size*self.step_size*td_error\n                # end of timestep\n                event_listener.end_of_timestep(locals())\n                s = ns\n            event_listener.end_of_episode(locals())\n        return q\n",
+             ['U/step/ExpectedSARSA/abstract-table-and-model']),
+    Sentinel('U:sarsa-chooses-the-next-action-after-the-update', 'msdm.algorithms.tdlearning',
+             "                na = epsilon_softmax_sample(q[ns], self.rand_choose, self.softmax_temp, rng)\n                # update\n                q[s][a] += self.step_size*(r + mdp.discount_rate*q[ns][na] - q[s][a])\n",
+             "                na = a\n                q[s][a] += self.step_size*(r + mdp.discount_rate*max(q[ns].values()) - q[s][a])\n                na = epsilon_softmax_sample(q[ns], self.rand_choose, self.softmax_temp, rng)\n",
+             ['U/step/SARSA/abstract-table-and-model']),
+]
